@@ -20,7 +20,7 @@ Print Assumptions C01_total_eq_parts.
    in fuel mass between consecutive points *)
 Theorem C01_segment_eq_index_times_fuel : forall (x : inputsR) (s : species), oracle_lengths x ->
   forall i, nth i (gl (I_traj_em x s)) 0 = nth i (gl (I_traj_idx x s)) 0 * nth i (Rfuel_burn (i_fm x)) 0.
-Proof. exact segment_eq_index_times_fuel. Qed.
+Proof. exact segment_eq_index_times_fuel_raw. Qed.
 Print Assumptions C01_segment_eq_index_times_fuel.
 
 Theorem C01_segment_fuel_is_mass_drop : forall fm i, (i < length fm)%nat ->
@@ -29,7 +29,7 @@ Proof. exact nth_fuel_burn. Qed.
 Print Assumptions C01_segment_fuel_is_mass_drop.
 
 Theorem C01_nothing_outside_window : forall (x : inputsR) s i,
-  in_window (win_start (i_cfg x) (i_ncl x)) (win_stop (i_cfg x) (length (i_fm x)) (i_nde x)) i = false ->
+  in_window (win_start (i_cfg x) (length (i_fm x)) (i_ncl x)) (win_stop (i_cfg x) (length (i_fm x)) (i_nde x)) i = false ->
   nth i (gl (I_traj_em x s)) 0 = 0 /\ nth i (gl (I_traj_idx x s)) 0 = 0.
 Proof. exact traj_zero_outside_window. Qed.
 Print Assumptions C01_nothing_outside_window.
@@ -70,10 +70,12 @@ Theorem C01_fuel_counted_once_trajectory_mode : forall x : inputsR,
 Proof. exact fuel_counted_once_trajectory_mode. Qed.
 Print Assumptions C01_fuel_counted_once_trajectory_mode.
 
-(* lto accounting: the trajectory contributes exactly the fuel-mass drop over [n_climb, n - n_descent),
-   the four LTO modes the rest — no segment is counted twice *)
+(* lto accounting, for ANY integer phase counts (Python slice semantics of [n_climb : n - n_descent], negative
+   bounds and bounds beyond the end included): the trajectory contributes exactly the fuel-mass drop over the
+   normalised window, the four LTO modes the rest — no segment is counted twice *)
 Theorem C01_fuel_counted_once_lto_mode : forall x : inputsR, cd (i_cfg x) = CD_LTO ->
-  let n := length (i_fm x) in let a := i_ncl x in let b := (n - i_nde x)%nat in
+  let n := length (i_fm x) in
+  let a := norm_bound n (i_ncl x) in let b := norm_bound n (Z.of_nat n - i_nde x) in
   (a <= b)%nat -> (1 <= b)%nat ->
   I_traj_fuel x = nth (Nat.pred (Nat.max a 1)) (i_fm x) 0 - nth (Nat.pred b) (i_fm x) 0
   /\ I_lto_fuel x = 1560 * tm_idle (l_ff (i_lto x)) + 240 * tm_approach (l_ff (i_lto x))
@@ -81,10 +83,24 @@ Theorem C01_fuel_counted_once_lto_mode : forall x : inputsR, cd (i_cfg x) = CD_L
 Proof. exact fuel_counted_once_lto_mode. Qed.
 Print Assumptions C01_fuel_counted_once_lto_mode.
 
+(* the ordinary case produced by the trajectory builders: 0 <= n_climb, 0 <= n_descent, n_climb + n_descent <= n *)
+Theorem C01_fuel_counted_once_lto_mode_ordinary : forall x : inputsR, cd (i_cfg x) = CD_LTO ->
+  let n := length (i_fm x) in
+  (0 <= i_ncl x)%Z -> (0 <= i_nde x)%Z -> (i_ncl x + i_nde x <= Z.of_nat n)%Z -> (i_nde x < Z.of_nat n)%Z ->
+  I_traj_fuel x = nth (Nat.pred (Nat.max (Z.to_nat (i_ncl x)) 1)) (i_fm x) 0
+                  - nth (Nat.pred (n - Z.to_nat (i_nde x))) (i_fm x) 0.
+Proof. exact fuel_counted_once_lto_mode_ordinary. Qed.
+Print Assumptions C01_fuel_counted_once_lto_mode_ordinary.
+
 Theorem C01_lto_mode_empty_window : forall x : inputsR, cd (i_cfg x) = CD_LTO ->
-  (length (i_fm x) - i_nde x <= i_ncl x)%nat -> I_traj_fuel x = 0.
+  let n := length (i_fm x) in
+  (norm_bound n (Z.of_nat n - i_nde x) <= norm_bound n (i_ncl x))%nat -> I_traj_fuel x = 0.
 Proof. exact lto_mode_empty_window. Qed.
 Print Assumptions C01_lto_mode_empty_window.
+
+Theorem C01_slice_bounds_stay_inside : forall n k, (norm_bound n k <= n)%nat.
+Proof. exact norm_bound_le. Qed.
+Print Assumptions C01_slice_bounds_stay_inside.
 
 (* NO + NO2 + HONO = NOx: LTO (indices and amounts, every thrust mode), APU, GSE unconditionally;
    trajectory: preserved by the bookkeeping whenever the EI method's arrays close per point *)
@@ -105,17 +121,32 @@ Theorem C01_nox_speciation_sums_gse : forall x : inputsR,
 Proof. exact nox_speciation_gse. Qed.
 Print Assumptions C01_nox_speciation_sums_gse.
 
-Theorem C01_nox_speciation_sums_trajectory : forall (x : inputsR) nx no n2 ho, oracle_lengths x ->
-  lookup NOx (i_orc_traj x) = Some nx -> lookup NO (i_orc_traj x) = Some no ->
-  lookup NO2 (i_orc_traj x) = Some n2 -> lookup HONO (i_orc_traj x) = Some ho ->
-  (forall i, nth i no 0 + nth i n2 0 + nth i ho 0 = nth i nx 0) ->
+(* trajectory: UNCONDITIONAL.  NO / NO2 / HONO are built from the EI method's NOx array with the fractions of each
+   point's thrust category (category = utils.get_thrust_cat_cruise of the SLS-equivalent fuel flow), as
+   BFFM2_EINOx does; whatever the NOx array, the SLS fuel flows and the LTO fuel flows are, the parts close on NOx
+   per point, for the windowed indices and for the amounts.  (nox_method = p3t3 / none: all four absent.) *)
+Theorem C01_nox_speciation_sums_trajectory : forall x : inputsR, oracle_lengths x ->
   forall i,
     nth i (gl (I_traj_idx x NO)) 0 + nth i (gl (I_traj_idx x NO2)) 0 + nth i (gl (I_traj_idx x HONO)) 0
       = nth i (gl (I_traj_idx x NOx)) 0
     /\ nth i (gl (I_traj_em x NO)) 0 + nth i (gl (I_traj_em x NO2)) 0 + nth i (gl (I_traj_em x HONO)) 0
       = nth i (gl (I_traj_em x NOx)) 0.
-Proof. exact nox_speciation_traj. Qed.
+Proof. exact nox_speciation_traj_unconditional. Qed.
 Print Assumptions C01_nox_speciation_sums_trajectory.
+
+(* PM splits of the ground components: APU PMvol + PMnvol = max(PM10 - SO4, 0) with 95 % non-volatile;
+   GSE PMvol + PMnvol = PM10 core - SO4 *)
+Theorem C01_apu_pm_split : forall (x : inputsR) a, I_apu x = Some a ->
+  gr (I_apu_idx x PMvol) + gr (I_apu_idx x PMnvol) = apu_pm10 (i_cfg x) (i_fuel x) (i_lto x) (i_orc_lto x) a
+  /\ gr (I_apu_idx x PMnvol) = (95 / 100) * apu_pm10 (i_cfg x) (i_fuel x) (i_lto x) (i_orc_lto x) a.
+Proof. exact apu_pm_split. Qed.
+Print Assumptions C01_apu_pm_split.
+
+Theorem C01_gse_pm_split : forall x : inputsR, gse_on (i_cfg x) = true ->
+  let '(_, _, _, _, pm) := @gse_nominal RNum (i_class x) in
+  gr (I_gse_em x PMvol) + gr (I_gse_em x PMnvol) = pm - gr (I_gse_em x SO4).
+Proof. exact gse_pm_split. Qed.
+Print Assumptions C01_gse_pm_split.
 
 (* SO2 + SO4 = SOx everywhere *)
 Theorem C01_sox_split_sums : forall x : inputsR,
@@ -162,6 +193,5 @@ Qed.
 
 Example C01_nonvacuous_nox_oracle :
   lookup NOx (i_orc_traj (ex_inputs CD_LTO)) = Some [10; 10; 12; 12; 10; 8]
-  /\ forall i, nth i [9; 9; 10.8; 10.8; 9; 7.2] 0 + nth i [0.5; 0.5; 0.6; 0.6; 0.5; 0.4] 0
-               + nth i [0.5; 0.5; 0.6; 0.6; 0.5; 0.4] 0 = nth i [10; 10; 12; 12; 10; 8] 0.
-Proof. split; [reflexivity|exact ex_nox_closes]. Qed.
+  /\ length (i_sls (ex_inputs CD_LTO)) = 6%nat /\ traj_var_has (i_cfg (ex_inputs CD_LTO)) NOx = true.
+Proof. repeat split; reflexivity. Qed.
